@@ -4,7 +4,7 @@ import json
 import os
 import sys
 
-from common import VERIF, CorrResult, Failure, enc_str, run_check, use_repo
+from common import VERIF, CorrResult, Failure, canon, enc_str, load_known_findings, run_check, use_repo
 use_repo()
 import sandboxio_common as sc                      # noqa: E402
 from translate_sandboxio import translate          # noqa: E402
@@ -27,6 +27,10 @@ THEOREMS = [
     "Pedal.SandboxIO.guard_sem",
     "Pedal.SandboxIO.pop_front",
     "Pedal.SandboxIO.default_known",
+    "Pedal.SandboxIO.lookup_at_call",
+    # objects that outlive an execution: a kept `input` is the current `input`
+    "Pedal.SandboxIO.runEvents_readKept",
+    "Pedal.SandboxIO.c15_kept_input_is_current_input",
 ]
 NOTES = [
     "a student execution is abstracted to its trace of stdout writes and input() calls; that print(*a, sep, end) "
@@ -42,8 +46,21 @@ NOTES = [
     "the control flow of the mocked input() / set_input / append_output around these facts is hand-modelled",
     "set_input/queue_input/run(inputs=) with a non-None value while a callable is installed raise AttributeError in "
     "the code; modelled (operation raises, state unchanged) and compared, but outside the oracle's domain",
+    "objects that outlive an execution: a call of input() through a reference an EARLIER execution handed out (a "
+    "stored `input`, a helper module of a two-file submission imported earlier, a generator that captured it) is an "
+    "event of its own in the model (readKept); that it is served exactly like a call through the current input() "
+    "(c15_kept_input_is_current_input) rests on the fourth translated + measured fact: the mocked input() resolves "
+    "self.inputs at each call (lookup_at_call; a tracker that captures the queue object when it is created fails it). "
+    "A stored `print`, a print / sys.stdout.write inside an earlier-imported module and generators advanced in a "
+    "later execution are CPython (print looks sys.stdout up when called): writes of the execution that makes them, "
+    "sampled by the correspondence. Text written through a stored sys.stdout OBJECT (out = sys.stdout, "
+    "file=sys.stdout default argument, bound sys.stdout.write) in a later execution vanishes in the code as it is: "
+    "OPEN finding (KNOWN_FINDINGS signature raw-output / kept-stdout-write-lost); the model side drops that text, the "
+    "oracle demands it, the search shows the finding once and then tolerates it so that it cannot hide another "
+    "failure (switch sandboxio_common.KEPT_STDOUT = off | open | fixed; notes/C15.md section 6)",
     "not modelled: MAXIMUM_INPUTS (100000 reads), output written by the abandoned thread of a timed-out execution "
-    "(C14), real_io / PrintingStringIO, student code that replaces sys.stdout or calls sandbox APIs itself",
+    "(C14), real_io / PrintingStringIO, student code that replaces or closes sys.stdout or calls sandbox APIs itself, "
+    "clear() / clear_student_data() (they delete everything student code could have kept)",
 ]
 
 
@@ -54,17 +71,42 @@ def corpus_cases():
         for name in sorted(os.listdir(d)):
             if name.endswith(".json"):
                 with open(os.path.join(d, name)) as fh:
-                    out.append(json.load(fh))
+                    case = json.load(fh)
+                # histories that write through a stored sys.stdout object wait for the decision on that finding
+                if sc.uses_kept_stdout(case) and sc.KEPT_STDOUT == "off":
+                    continue
+                out.append(case)
     return out
 
 
 def nontrivial_key(case):
     """>=2 executions of which one prints and one is silent or reads input, or a queue op between executions"""
-    execs = [op for op in case["ops"] if op["k"] == "exec"]
-    if len(execs) >= 2 and (any(not op["events"] for op in execs) or any(e[0] in ("r", "r0") for op in execs
+    execs = [op for op in sc.flat_ops(case)[1:] if op["k"] == "exec"]
+    if len(execs) >= 2 and (any(not op["events"] for op in execs) or any(sc.is_read(e) for op in execs
                                                                            for e in op["events"])):
         return json.dumps(case, sort_keys=True)
     return None
+
+
+def survivor_class(case):
+    """which kind of kept object a history really uses in a LATER execution (for the evidence counters)"""
+    kinds = set()
+    kept, gens = {0: 0}, {}
+    for i, (op, raises) in enumerate(sc.walk([sc.SETUP_OP] + case["ops"])):
+        if op["k"] != "exec" or raises:
+            continue
+        for e in op["events"]:
+            if e[0] == "keep":
+                kept[e[1]] = i
+            elif e[0] == "gnew":
+                gens[e[1]] = i
+            elif e[0] == "gnext":
+                if gens.get(e[1], i) != i:
+                    kinds.add("generator")
+            elif e[0] not in sc.BASE_KINDS and kept.get(e[1], i) != i:
+                kinds.add({"kr": "input", "kr0": "input", "hr": "module-input", "kp": "print", "hp": "module-print",
+                           "hw": "module-write"}.get(e[0], "stdout-object"))
+    return kinds
 
 
 def string_corr(rng, tier, driver, res):
@@ -108,11 +150,18 @@ def correspond(rng, tier, driver):
                 "set_input(None|str|int|list|callable, clear); queue_input; clear_input; run/call(inputs=)); real = "
                 "pedal.sandbox.commands on a fresh sandbox observed after EVERY op (raw, line view, queue, record count, "
                 "last record) + all records at the end; model = Pedal.SandboxIO.run through driver_c15; non-trivial = "
-                ">=2 executions with a silent or reading one")
+                ">=2 executions with a silent or reading one; + survivor histories: an execution stores input / print / "
+                "a fresh import of the helper module of a two-file submission / a generator (slot 0: the setup "
+                "execution's own), later executions read and write through them, with clear_input / set_input(None| "
+                "str|list|callable, clear) / queue_input / clear_output / inputs= in between")
     n = 500 if tier == "quick" else 6000
     cases = corpus_cases()
     for _ in range(n):
         cases.append(sc.gen_case(rng, allow_callable=True))
+    # objects that outlive an execution: references stored by one execution, used by later ones, with every queue /
+    # output operation (in place and rebinding) in between
+    for _ in range(250 if tier == "quick" else 3000):
+        cases.append(sc.gen_survivor_case(rng, allow_callable=rng.random() < 0.4))
     reals, lines = [], []
     for case in cases:
         real = sc.run_real(case)
@@ -127,6 +176,12 @@ def correspond(rng, tier, driver):
             res.count("op:" + op["k"] + (":" + op["kind"] if op["k"] == "exec" else ""))
         if any(o["err"] for o in real[0]):
             res.count("history-with-raising-op")
+        for kind in survivor_class(case):
+            res.count("kept:" + kind)
+        if sc.has_stale_route(case) and any(op["k"] in ("clear_input", "set_input") and
+                                            (op["k"] == "clear_input" or op["arg"][0] in ("none", "callable"))
+                                            for op in case["ops"]):
+            res.count("kept-reference+queue-rebound")
         k = nontrivial_key(case)
         if k:
             res.nontrivial.add(k)
@@ -150,6 +205,8 @@ SMALL_OPS = [
     _ex([["r", "p"]]), _ex([["r0"], ["w", "x\n\ny \n"]], "run"),
     {"k": "clear_output"}, {"k": "set_input", "arg": ["many", ["1", "2"]], "clear": True},
     {"k": "queue_input", "items": ["3"]}, {"k": "clear_input"},
+    # through what the setup execution left behind: its `input`, then the helper module it imported
+    _ex([["kr", 0, "k"], ["hr", 0, "h"]]),
 ]
 
 
@@ -166,16 +223,24 @@ def search(rng, tier, broken, corr):
     failures = []
     info = {"rule": "real pedal vs the oracle written from the property text (raw = concatenation since clear; line view "
                     "= per printing execution rstrip/split/rstrip; records hold their share; FIFO/once/fixed default): "
-                    "corpus, the correspondence cases, seeded histories without callable-mode set/queue, and (thorough) "
-                    "every history of <=4 ops over an 11-op alphabet",
+                    "corpus, the correspondence cases, seeded histories without callable-mode set/queue (every third one "
+                    "a survivor history: stored input / print / module / generator used in later executions; the oracle "
+                    "makes no difference between routes), and (thorough) "
+                    "every history of <=4 ops over a 12-op alphabet",
             "evaluations": 0, "distinct_nontrivial": 0, "samples": []}
     seen = set()
     nt = set()
     first_fail = [None]
+    # an open, recorded finding is exhibited once and then tolerated (judged again with view="lost"), so that it neither
+    # ends the search early nor hides a different failure of the same history
+    known = {canon(k["signature"]) for k in load_known_findings("C15")}
+    known_shown = set()
+    info["tolerated_known_finding"] = 0
 
     def enough():
         # stop once a failure has been exhibited and a further slice of the budget found nothing new
-        return len(failures) >= 4 or (first_fail[0] is not None and info["evaluations"] - first_fail[0] > 250)
+        return len(failures) - len(known_shown) >= 4 or \
+            (first_fail[0] is not None and info["evaluations"] - first_fail[0] > 250)
 
     def consider(case, real=None):
         if not sc.in_domain(case):
@@ -189,12 +254,25 @@ def search(rng, tier, broken, corr):
         v = sc.judge(case, real)
         if v is None:
             return
+        view = "oracle"
+        if canon(v[0]) in known and v[0].get("shape") == "kept-stdout-write-lost":
+            info["tolerated_known_finding"] += 1
+            if canon(v[0]) not in known_shown:
+                known_shown.add(canon(v[0]))
+                record(case, v, "oracle", counts=False)
+            view = "lost"
+            v = sc.judge(case, real, view="lost")
+            if v is None:
+                return
+        record(case, v, view, counts=True)
+
+    def record(case, v, view, counts):
         sig = v[0]
 
         def still(c):
             if not sc.in_domain(c) or not c["ops"]:
                 return False
-            vv = sc.judge(c, sc.run_real(c))
+            vv = sc.judge(c, sc.run_real(c), view=view)
             return vv is not None and vv[0] == sig
         small = sc.shrink(case, still)
         key = json.dumps(small, sort_keys=True)
@@ -202,9 +280,9 @@ def search(rng, tier, broken, corr):
             return
         seen.add(key)
         r = sc.run_real(small)
-        vv = sc.judge(small, r)
+        vv = sc.judge(small, r, view=view)
         failures.append(Failure(sig, (vv or v)[1], {"case": small, "real_last": r[0][-1]}))
-        if first_fail[0] is None:
+        if counts and first_fail[0] is None:
             first_fail[0] = info["evaluations"]
 
     for case, real in getattr(corr, "reals", []):
@@ -216,10 +294,13 @@ def search(rng, tier, broken, corr):
     n = 300 if tier == "quick" else 6000
     if broken:
         n *= 3
-    for _ in range(n):
+    for j in range(n):
         if enough():
             break
-        consider(sc.gen_case(rng, allow_callable=rng.random() < 0.3))
+        if j % 3 == 2:
+            consider(sc.gen_survivor_case(rng, allow_callable=rng.random() < 0.3))
+        else:
+            consider(sc.gen_case(rng, allow_callable=rng.random() < 0.3))
     if not enough():
         for case in small_scope(4 if tier == "thorough" else 2 if not broken else 3):
             consider(case)
@@ -237,6 +318,7 @@ def replay(payload):
     real = sc.run_real(case)
     exp, _ = sc.expected(case, "0")
     print("case:", json.dumps(case))
+    print("events as the property sees them:", json.dumps([op["events"] for op in sc.flat_ops(case) if op["k"] == "exec"]))
     for i, (r, e) in enumerate(zip(real[0], exp)):
         print("op %d real   raw=%r lines=%r inputs=%r last_in=%r" % (i, r["raw"], r["lines"], r["inputs"], r["last_in"]))
         print("op %d oracle raw=%r lines=%r queue=%r returned=%r" % (i, e["raw"], e["lines"], e["queue"], e["returned"]))
